@@ -11,6 +11,7 @@ import Miden.Model.Air
 import Miden.Generated.ProvingOpts
 import Miden.Model.Serde
 import Miden.Model.Lookup
+import Miden.Model.Asm
 namespace Miden
 
 def joinNats (l : List Nat) : String := ",".intercalate (l.map toString)
@@ -236,6 +237,15 @@ def handle (line : String) : String :=
     s!"digest {joinNats (Rpo.mergeInDomain (parseNats a) (parseNats b) (d.toNat?.getD 0))}"
   | ["permute", s] => s!"state {joinNats (Rpo.permute (parseNats s))}"
   | ["hashelems", s] => s!"digest {joinNats (Rpo.hashElements (parseNats (if s == "-" then "" else s)))}"
+  | "callset" :: known :: mainLocal :: mainRefs :: procs =>
+    let parseRefs (s : String) : List Asm.Ref :=
+      if s == "-" then [] else (s.splitOn ",").filterMap (fun t =>
+        if t.startsWith "e" then (t.drop 1).toString.toNat?.map Asm.Ref.exec
+        else if t.startsWith "c" then (t.drop 1).toString.toNat?.map Asm.Ref.call else none)
+    let ps := procs.map parseRefs
+    let tbl := Asm.cbTable ps (parseNats (if mainLocal == "-" then "" else mainLocal)) (parseRefs mainRefs)
+    let present := (parseNats (if known == "-" then "" else known)).filter (· ∈ tbl)
+    if Asm.wellFormed ps then s!"cb {if present.isEmpty then "-" else joinNats present}" else "undefined"
   | ["auxcol", initResp, _n, resp, req] =>
     let g (s : String) : List GF := (parseNats (if s == "-" then "" else s)).map (fun v => (⟨v % P⟩ : GF))
     let col := Lookup.buildAuxColumn (⟨initResp.toNat?.getD 0⟩ : GF) 1 (g resp) (g req)
